@@ -89,7 +89,7 @@ func (e *encoder) write(b *builder, t *Type, v *Val) {
 	case KNat32:
 		b.bits = b.bits.AppendBig(v.Big, 32)
 	case KBits:
-		b.bits = b.bits.AppendBytes(v.Bytes)
+		b.bits = append(b.bits, ref.BitsFromBytes(v.Bytes, t.N)...)
 	case KBool:
 		b.bits = append(b.bits, v.Bool)
 	case KCoins:
